@@ -38,7 +38,22 @@ def main():
         (shutil.copytree if os.path.isdir(sp) else shutil.copy)(sp, os.path.join(sc, item))
     rc, out = sh('patch -p1 -d %s < %s' % (sc, patch))
     if rc != 0:
-        print('patch does not apply to a copy of /repo:', out); sys.exit(2)
+        # the seed was written against an older HEAD of /repo (before a later fix: commit): re-create it against the current HEAD
+        shutil.rmtree(sc, ignore_errors=True)
+        sc = tempfile.mkdtemp(prefix='cppu-seed-')
+        for item in ('CMakeLists.txt', 'include', 'src'):
+            sp = os.path.join('/repo', item)
+            (shutil.copytree if os.path.isdir(sp) else shutil.copy)(sp, os.path.join(sc, item))
+        rb = os.path.join(src, 'rebased')
+        os.makedirs(rb, exist_ok=True)
+        shutil.copy(patch, os.path.join(rb, 'patch.diff'))
+        rcr, outr = sh('/verif/tools/rebase_patch.sh %s' % rb)
+        rc, out = sh('patch -p1 -d %s < %s' % (sc, os.path.join(rb, 'patch.diff')))
+        if rcr != 0 or rc != 0:
+            print('patch does not apply to a copy of /repo:', out, outr); sys.exit(2)
+        res['rebased'] = True
+        patch = os.path.join(rb, 'patch.diff')
+        shutil.copy(os.path.join(src, 'patch.diff'), os.path.join(src, 'patch.orig.diff'))
     res['checks'] = {}
     try:
         for c in checks:
@@ -52,6 +67,9 @@ def main():
     for f in ('patch.diff', 'demo.cpp', 'run.sh', 'notes.md'):
         if os.path.exists(os.path.join(src, f)):
             shutil.copy(os.path.join(src, f), os.path.join(d, f))
+    if res.get('rebased'):
+        shutil.copy(patch, os.path.join(d, 'patch.diff'))      # applies to the current /repo HEAD
+        shutil.copy(os.path.join(src, 'patch.orig.diff'), os.path.join(d, 'patch.orig.diff'))   # as the agent wrote it (older HEAD)
     for f in os.listdir(src):
         if f not in ('patch.diff', 'demo.cpp', 'run.sh', 'notes.md') and os.path.isfile(os.path.join(src, f)) and os.path.getsize(os.path.join(src, f)) < 200000 and not os.access(os.path.join(src, f), os.X_OK):
             shutil.copy(os.path.join(src, f), os.path.join(d, f))
